@@ -62,7 +62,7 @@ theorem afterDecode_call {r : Route} {ep ep' : Endpoint} {enc : Enc} {d : Decode
       intro hr
       cases hc : elems.contains Elem.nil
       · rfl
-      · simp [hr, hc] at hn
+      · simp [hr] at hn
         exact absurd (by simpa using hc) hn
   · cases h
 
@@ -165,6 +165,50 @@ theorem admitVC_calls_status {verify : VerifyFn} {L : Lock} {idx : ShareIdx} {ns
       split
       · exact Or.inr ⟨rfl, by simp⟩
       · exact Or.inl rfl
+
+theorem unmarshalStatus_ne_panic (enc : Enc) (d : Decoded) : unmarshalStatus enc d ≠ .panic := by
+  cases d <;> cases enc <;> simp [unmarshalStatus]
+
+theorem decodeArgs_error_ne_panic {rq : Request β} {s : Status} (h : decodeArgs rq = .error s) :
+    s ≠ .panic := by
+  unfold decodeArgs at h
+  split at h
+  · cases h; simp
+  · split at h
+    · cases h; simp
+    · split at h
+      · cases h; simp
+      · split at h
+        · cases h; simp
+        · cases h; simp
+        · split at h
+          · split at h
+            · cases h; simp
+            · split at h
+              · cases h
+              · cases h; simp
+          · cases h
+
+theorem afterDecode_respond_ne_panic {r : Route} {ep : Endpoint} {enc : Enc} {d : Decoded}
+    {s : Status} (h : afterDecode r ep enc d = .respond s) : s ≠ .panic := by
+  unfold afterDecode at h
+  split at h
+  · split at h
+    · cases h; simp
+    · cases h
+  · cases h
+    split
+    · exact unmarshalStatus_ne_panic _ _
+    · simp
+
+theorem route_respond_ne_panic {decode : Decoder β} {rq : Request β} {s : Status}
+    (h : route decode rq = .respond s) : s ≠ .panic := by
+  unfold route at h
+  split at h
+  · rename_i s' ha
+    cases h
+    exact decodeArgs_error_ne_panic ha
+  · exact afterDecode_respond_ne_panic h
 
 theorem mem_filterMap_toItem_of_item {env : AttEnv} {elems : List Elem} {e : Elem} {it : Item}
     (he : e ∈ elems) (hit : toItem env e = some it) : it ∈ elems.filterMap (toItem env) :=
